@@ -181,6 +181,10 @@ def _verify_cases(draw, kinds=("root", "root-ok", "delegation", "delegation-ok",
                                      timestamp=draw(GM.utc_times))
         else:
             payload = dict(draw(G.package_record), type=utype)
+            if draw(st.integers(0, 3)) == 0:
+                # leaf content is free to use the library's field names its own way (an "expiration" that is no ...Z string)
+                payload[draw(st.sampled_from(["expiration", "timestamp", "version", "delegations"]))] = draw(st.sampled_from(
+                    ["2031-07-13T05:46:45+00:00", "2031-07-13T05:46:45.5Z", "2031-07-13", 1594619205, None, "never", [], {"a": 1}]))
         U = GM.sign_envelope(GM.wrap(payload), seeds[:draw(st.integers(thr - 1, len(seeds)))], False)
         for k, v in draw(st.lists(st.tuples(G.strings, GE.JUNK_VALUES), max_size=2)):
             U["signatures"].setdefault(k, v)
